@@ -37,18 +37,6 @@ def session_stage(res, wd, tier, seed, prop="C02"):
             raise ToolError("specification invariant violated in MC_Session: %s\n%s" % (st["violated"], st["tail"][-1500:]))
         res.add_states(st)
         res.cov["parts"]["tlc_cases_MC_Session"] = st["cases"]
-        if tier != "quick":
-            # longer sessions by simulation
-            cfg2 = os.path.join(swd, "MC_Session_sim.cfg")
-            write_cfg(cfg2, constants={"Level": 2, "MaxOps": 6}, invariants=["Refines", "AfterDone", "Emit"])
-            part = os.path.join(swd, "cases_sim.ndjson")
-            st2 = tlc_generate("MC_Session", cfg2, part, swd, workers=NCPU, simulate="num=40000", timeout=3000)
-            if st2["violated"]:
-                raise ToolError("specification invariant violated in MC_Session (simulation): %s" % st2["violated"])
-            res.cov["parts"]["tlc_cases_MC_Session_sim"] = st2["cases"]
-            with open(cases, "a") as out, open(part) as f:
-                shutil.copyfileobj(f, out)
-            os.remove(part)
     trace = os.path.join(swd, "trace.ndjson")
     aborts = run_harness_parallel("session", cases, seed, nrand, trace, swd, k=8)
     res.cov["parts"]["session_worker_aborts"] = len(aborts)
